@@ -24,6 +24,7 @@ import (
 	"strconv"
 	"strings"
 	"sync"
+	"sync/atomic"
 	"time"
 
 	"golang.zx2c4.com/wireguard/device"
@@ -142,6 +143,10 @@ func newRunner() (*runner, error) {
 		return nil, err
 	}
 	w.Timeout = 3 * time.Second
+	return newRunnerWith(w), nil
+}
+
+func newRunnerWith(w *cosim.World) *runner {
 	r := &runner{w: w, cur: 100, peers: map[int]*rpeer{}, nextRidx: 0x5000, nextID: 101}
 	r.idents = append(r.idents, identity{100, w.DevPriv, w.DevPub})
 	for i := 1; i <= 4; i++ {
@@ -150,7 +155,7 @@ func newRunner() (*runner, error) {
 		p.addr = netip.MustParseAddrPort(fmt.Sprintf("192.0.2.%d:%d", i, 5000+i))
 		r.peers[i] = p
 	}
-	return r, nil
+	return r
 }
 
 func (r *runner) identByPub(pub ref.Key) int {
@@ -955,6 +960,109 @@ func drainStart(wait time.Duration) func() Case {
 	}
 }
 
+// ---------------------------------------------------------------- removal between two packets of one TUN batch
+
+// insideBatch: the device is built here with a harness-owned device.Logger whose Verbosef performs the removal when
+// the TUN reader reports "unknown IP version" for the SECOND packet of a two-packet batch; the first packet of that
+// batch is routed to peer 1 (endpoint, no session).  The removal therefore happens, and returns, strictly after peer
+// 1 was looked up for packet one and before the batch is handed over: everything is one goroutine, so the scenario is
+// deterministic.  A datagram whose Bind.Send starts after "removal returned" is a violation.
+func insideBatch(how string) Case {
+	c := Case{Mode: 1, Gen: "inside-batch:" + how, Plan: []string{"insidebatch " + how}}
+	bind := sim.NewBind(1)
+	tn := sim.NewTun(2, 1420)
+	var r *runner
+	var armed atomic.Bool
+	var removed atomic.Uint64
+	logger := &device.Logger{
+		Verbosef: func(format string, args ...any) {
+			if strings.Contains(format, "unknown IP version") && armed.CompareAndSwap(true, false) {
+				cfg := "replace_peers=true\n"
+				if how == "remove" {
+					cfg = "public_key=" + hex.EncodeToString(r.peers[1].pub[:]) + "\nremove=true\n"
+				}
+				r.w.Dev.IpcSet(cfg)
+				removed.Store(sim.Seq.Add(1))
+			}
+		},
+		Errorf: func(format string, args ...any) {},
+	}
+	w := &cosim.World{Bind: bind, Tun: tn, Timeout: 3 * time.Second}
+	w.DevPriv = ref.NewPrivate()
+	w.DevPub = ref.PubOf(w.DevPriv)
+	w.Dev = device.NewDevice(tn, bind, logger)
+	if err := w.Dev.IpcSet("private_key=" + hex.EncodeToString(w.DevPriv[:]) + "\nlisten_port=51820\n"); err != nil {
+		c.Stuck = err.Error()
+		return c
+	}
+	r = newRunnerWith(w)
+	for _, a := range []string{"add 1 ep 1", "add 2 ep 2", "up"} {
+		r.do(a)
+	}
+	p := r.peers[1]
+	type start struct {
+		seq  uint64
+		to   netip.AddrPort
+		data []byte
+	}
+	var mu sync.Mutex
+	var starts []start
+	bind.SendGate = func(bufs [][]byte, to netip.AddrPort) {
+		mu.Lock()
+		for _, b := range bufs {
+			starts = append(starts, start{sim.Seq.Add(1), to, append([]byte{}, b...)})
+		}
+		mu.Unlock()
+	}
+	routed := ref.IPv4([4]byte{10, 9, 9, 9}, [4]byte{10, 0, 1, 77}, 80, 1)
+	odd := ref.IPv4([4]byte{10, 9, 9, 9}, [4]byte{10, 0, 1, 78}, 80, 1)
+	odd[0] = 0x75
+	armed.Store(true)
+	w.TunIn(routed, odd) // one Read returns both
+	w.TunIn(ref.IPv4([4]byte{10, 9, 9, 9}, [4]byte{10, 99, 0, 1}, 60, 1))
+	rem := removed.Load()
+	if rem == 0 {
+		c.Stuck = "the removal was not triggered inside the batch"
+	}
+	mu.Lock()
+	var late []sim.Sent
+	var lateSeq uint64
+	for _, s := range starts {
+		if rem != 0 && s.seq > rem && s.to == p.addr {
+			late = append(late, sim.Sent{Seq: s.seq, To: s.to, Data: s.data})
+			if lateSeq == 0 {
+				lateSeq = s.seq
+			}
+		}
+	}
+	mu.Unlock()
+	obs := r.observe(cosim.Out{Sent: late}, unknownID)
+	ghosts := 0
+	keys := map[int]bool{}
+	for _, k := range obs.Keys {
+		keys[k] = true
+	}
+	for _, e := range obs.Itab {
+		if !keys[int(e[1])] {
+			ghosts++
+		}
+	}
+	c.Race = &RaceObs{Kind: "inside-batch", Ghosts: ghosts, LateDatagrams: len(late), RemovedSeq: rem, LateSeq: lateSeq}
+	ev := Ev{K: "remove", Pk: 1}
+	if how != "remove" {
+		ev = Ev{K: "replace"}
+	}
+	c.Steps = append(r.steps, Step{Ev: ev, Obs: obs})
+	done := make(chan struct{})
+	go func() { w.Dev.Close(); close(done) }()
+	select {
+	case <-done:
+	case <-time.After(10 * time.Second):
+		c.Stuck = "Close did not return"
+	}
+	return c
+}
+
 // ---------------------------------------------------------------- Gallina
 
 func gEv(e Ev) string {
@@ -1059,6 +1167,7 @@ func main() {
 	length := flag.Int("len", 45, "actions per random scenario")
 	grid := flag.Bool("grid", true, "run the life-cycle x revocation grid")
 	race := flag.Int("race", 0, "rounds of the concurrent variant (per kind)")
+	inside := flag.Int("inside", 2, "rounds (per kind) of the removal-between-two-packets-of-one-TUN-batch scenario")
 	drain := flag.Int("drain", 3, "rounds of the removal-while-sender-busy scenario (each stays alive for -drainwait)")
 	drainWait := flag.Duration("drainwait", 5600*time.Millisecond, "how long a drain scenario waits for timers after the removal returned")
 	shards := flag.Int("shards", 16, "case files")
@@ -1072,6 +1181,19 @@ func main() {
 	var cases []Case
 	runIn := func(cs []Case, gen string) {
 		for _, c := range cs {
+			if len(c.Plan) == 1 && strings.HasPrefix(c.Plan[0], "insidebatch") {
+				f := strings.Fields(c.Plan[0])
+				how := "remove"
+				if len(f) > 1 {
+					how = f[1]
+				}
+				rc := insideBatch(how)
+				if gen != "" {
+					rc.Gen = gen
+				}
+				cases = append(cases, rc)
+				continue
+			}
 			if len(c.Plan) == 1 && strings.HasPrefix(c.Plan[0], "drain") {
 				f := strings.Fields(c.Plan[0])
 				w := *drainWait
@@ -1147,6 +1269,9 @@ func main() {
 		for i := 0; i < *race; i++ {
 			cases = append(cases, raceRound("initiation", 200+r.Intn(400)))
 			cases = append(cases, raceRound("tun", r.Intn(150)))
+		}
+		for i := 0; i < *inside; i++ {
+			cases = append(cases, insideBatch("remove"), insideBatch("replace"))
 		}
 		for _, f := range pending {
 			cases = append(cases, f())
